@@ -120,3 +120,12 @@ val lookup_res_rec :
 val lookup : jv -> nat -> nat -> pelem list -> lookup_res
 
 val has_dup_keys : nat -> jv -> bool
+
+val skip_elems : nat -> nat -> coq_N list -> (nat * coq_N list) option
+
+val find_member :
+  nat -> coq_N list -> nat -> coq_N list -> (nat * coq_N list) option
+
+val ref_get_at : pelem list -> nat -> coq_N list -> (nat * nat) option
+
+val ref_get : coq_N list -> pelem list -> (nat * nat) option
